@@ -17,6 +17,13 @@ CLAIMED = {
   },
 }
 
+CLAIMED["C16"] = {
+  "text": "Static decision that no capacity guard can drop a contact / broadphase pair / constraint-row / Jacobian-non-zero / CCD / flex-candidate block silently: every slot allocated from an atomic counter is bounded by a capacity comparison that is exactly `slot + n <= cap`, an overflow-flagging statement compares the same counter with the same capacity, and no allocation is pre-gated by a plain read of its own counter.",
+  "note": STATIC_NOTE,
+  "technique": "path-condition dataflow + linear normal forms of capacity guards over the kernel IR (R-CAP O1-O4)",
+  "design_ref": "DESIGN.md section 4 C16, section 3 R-CAP",
+}
+
 NOT_APPLICABLE = {
   "C06": "optimality of an iterative float solve is a runtime quantity; no structural necessary condition beyond what C24/C25 decide",
   "C18": "equivalence of broadphases depends on geometric conservativeness of numeric filters and sort/scan arithmetic; a sibling text-diff of the NXN/SAP kernels would alarm on harmless refactors",
